@@ -1035,7 +1035,7 @@ func subFrames(fs []*g9mesh.Frame) []string {
 func TestC29(t *testing.T) {
 	r := vf.Start(t, "C29", vf.Exploration)
 	defer r.Finish()
-	r.SetRule("(a) opener rule: two real pubsub controllers (stub router, captured EstablishLinkWithPeer reference handler) are handed the two ends of one link as fake mounted links, for pairs of distinct peer ids (real Ed25519 ids; ids sharing all but the last byte; one id a prefix of the other; leading-zero ids; one-bit mutations), delivered concurrently in opposite orders; at controller quiescence (no tracker goroutine alive, Execute loops parked) OpenMountedStream calls over both ends must total exactly 1. (a2) the same over link RE-ESTABLISHMENT histories, batches of 40 pairs stepping through one shape (8 forced shapes round-robin, then PRNG shapes): link value added -> removed -> added again under the SAME link uuid as a new or the same MountedLink object (per pair), 1-3 times, optionally re-reported without removal; OpenMountedStream of a link object can be held at a harness gate, so that the previous establishment's tracker is still blocked in the open when the link is removed and when the next value arrives; steps are separated by rest points decided from goroutine states (both Execute loops parked after the last callback returned, every other controller goroutine parked at the gate) or follow back to back; the gates open at the end or in between; a held open whose context was cancelled fails. Oracle at controller quiescence: on the link object that is established at the end, successful OpenMountedStream calls begun since it was (last) established: one side 1..(times the value was reported), the other side 0. (b)+(c): histories of exec / subscribe / add-handler / remove-handler / release / add-peer-stream on one real FloodSub node, each operation raced with 0-6 authentic publishes written by harness-driven neighbours, gaps none / scheduler yields / exact quiescence (every fifth history is a pure burst); (b) a callback logged at logical time t > removeReturned(handler) or t > releaseReturned(subscription) is a violation (callbacks run under the subscription mutex that remove/release take); (c) at every exact quiescent point each neighbour's replayed view (Subscribe true/false packets on the tap) equals the node's set of channels with a live subscription; finally everything is released, views must be empty and a last feed must reach no handler. (d) scripted overlap: 1-3 subscriptions with 1-5 handlers each, 0-2 neighbours, 1-4 rounds; per round a message (subscription Publish / FloodSub.Publish / neighbour packet) is delivered to a target subscription and the first callback of a handler that is not about to be removed blocks on a harness gate; while it is blocked, Release of the target and / or the remove functions of other handlers of the target (sometimes also Release of another subscription) are started in their own goroutines; once each has returned or is parked in sync.Mutex.Lock below a floodsub frame (goroutine-state inspection) 0-3 further messages are issued and the gate is opened; oracle as in (b), views as in (c). (e) back-pressure at the moment of a subscription change: 1-3 harness-driven neighbours announce channels, the streams towards some of them (always the first, which wants the channel) are stalled (writes block), K publications (K around the per-peer queue size: 30..36 in half of the scenarios, 32..35 forced regularly, else 0..29 or 37..96; via a subscription, FloodSub.Publish or another neighbour's feed) are forwarded into them, then - once the node rests against the stalled streams: router parked on a full send queue, or all calls returned and the node exactly quiescent - 1-3 subscription changes (release of the last / one subscription, new channel, release + re-subscribe ...) are issued in their own goroutine and, once they returned or are parked on a floodsub lock and the node rests again, the streams are un-stalled in PRNG order; oracle (c) at the following exact quiescence, then everything is released and (c) again, (b) throughout. (f) stream replacement with the OLD stream stalled: the stream of a neighbour's (peer, link) tuple is stalled, 0-23 publications are forwarded into it (a session stuck in the stream write), the stream is REPLACED by AddPeerStream for the same tuple (1-2 times; the neighbour re-announces or not), exact quiescence (= the replacement session has started while the old one is still stuck), optional changes, then the old streams drain or are closed in PRNG order (old sessions exit late), then publications and 1-3 subscription changes; oracle (c) over the neighbour's CURRENT stream at every exact quiescent point. (g) subscription lifecycles: with 1-3 neighbours connected the node subscribes a channel (1-2 subscriptions), releases the last one, becomes exactly quiescent (unsubscribe announced) or not, and subscribes the SAME channel again, 1-3 cycles, sometimes with another channel subscribed throughout, a neighbour feeding a message after every re-subscription, a late neighbour at the end; (c) at every exact quiescent point. Non-trivial: (a) exactly one open observed; (a2) exactly one side opened on the finally established object; (g) at least one release - quiescence - re-subscribe cycle was judged; (e) a stalled stream had a blocked writer and views were judged; (f) an old session was stuck in its stream write when it was replaced; (b,c) history with at least one neighbour, one subscription and one callback; (d) at least one overlap was established and a callback was logged.")
+	r.SetRule("(a) opener rule: two real pubsub controllers (stub router, captured EstablishLinkWithPeer reference handler) are handed the two ends of one link as fake mounted links, for pairs of distinct peer ids (real Ed25519 ids; ids sharing all but the last byte; one id a prefix of the other; leading-zero ids; one-bit mutations), delivered concurrently in opposite orders; at controller quiescence (no tracker goroutine alive, Execute loops parked) OpenMountedStream calls over both ends must total exactly 1. (a2) the same over link RE-ESTABLISHMENT histories, batches of 40 pairs stepping through one shape (8 forced shapes round-robin, then PRNG shapes): link value added -> removed -> added again under the SAME link uuid as a new or the same MountedLink object (per pair), 1-3 times, optionally re-reported without removal; OpenMountedStream of a link object can be held at a harness gate, so that the previous establishment's tracker is still blocked in the open when the link is removed and when the next value arrives; steps are separated by rest points decided from goroutine states (both Execute loops parked after the last callback returned, every other controller goroutine parked at the gate) or follow back to back; the gates open at the end or in between; a held open whose context was cancelled fails. Oracle at controller quiescence: on the link object that is established at the end, successful OpenMountedStream calls begun since it was (last) established: one side 1..(times the value was reported), the other side 0. (b)+(c): histories of exec / subscribe / add-handler / remove-handler / release / add-peer-stream on one real FloodSub node, each operation raced with 0-6 authentic publishes written by harness-driven neighbours, gaps none / scheduler yields / exact quiescence (every fifth history is a pure burst); (b) a callback logged at logical time t > removeReturned(handler) or t > releaseReturned(subscription) is a violation (callbacks run under the subscription mutex that remove/release take); (c) at every exact quiescent point each neighbour's replayed view (Subscribe true/false packets on the tap) equals the node's set of channels with a live subscription; finally everything is released, views must be empty and a last feed must reach no handler. (d) scripted overlap: 1-3 subscriptions with 1-5 handlers each, 0-2 neighbours, 1-4 rounds; per round a message (subscription Publish / FloodSub.Publish / neighbour packet) is delivered to a target subscription and the first callback of a handler that is not about to be removed blocks on a harness gate; while it is blocked, Release of the target and / or the remove functions of other handlers of the target (sometimes also Release of another subscription) are started in their own goroutines; once each has returned or is parked in sync.Mutex.Lock below a floodsub frame (goroutine-state inspection) 0-3 further messages are issued and the gate is opened; oracle as in (b), views as in (c). (e) back-pressure at the moment of a subscription change: 1-3 harness-driven neighbours announce channels, the streams towards some of them (always the first, which wants the channel) are stalled (writes block), K publications (K around the per-peer queue size: 30..36 in half of the scenarios, 32..35 forced regularly, else 0..29 or 37..96; via a subscription, FloodSub.Publish or another neighbour's feed) are forwarded into them, then - once the node rests against the stalled streams: router parked on a full send queue, or all calls returned and the node exactly quiescent - 1-3 subscription changes (release of the last / one subscription, new channel, release + re-subscribe ...) are issued in their own goroutine and, once they returned or are parked on a floodsub lock and the node rests again, the streams are un-stalled in PRNG order; oracle (c) at the following exact quiescence, then everything is released and (c) again, (b) throughout. (e2) several changes of ONE channel queued behind a stalled stream write: as (e) with 0-6 publications, then 2-6 changes issued one by one (subscribe X, release the last subscription of X, subscribe X again ..., sometimes another channel in between or two changes back to back), each followed by waiting until the change call returned and the node is exactly quiescent with the session parked in the stalled write (the evaluation pass has queued the announcement behind the blocked packet), then the streams are un-stalled in PRNG order; (c) at the following exact quiescence; non-trivial = at least two changes of one channel were queued while a writer was blocked. (f) stream replacement with the OLD stream stalled: the stream of a neighbour's (peer, link) tuple is stalled, 0-23 publications are forwarded into it (a session stuck in the stream write), the stream is REPLACED by AddPeerStream for the same tuple (1-2 times; the neighbour re-announces or not), exact quiescence (= the replacement session has started while the old one is still stuck), optional changes, then the old streams drain or are closed in PRNG order (old sessions exit late), then publications and 1-3 subscription changes; oracle (c) over the neighbour's CURRENT stream at every exact quiescent point. (g) subscription lifecycles: with 1-3 neighbours connected the node subscribes a channel (1-2 subscriptions), releases the last one, becomes exactly quiescent (unsubscribe announced) or not, and subscribes the SAME channel again, 1-3 cycles, sometimes with another channel subscribed throughout, a neighbour feeding a message after every re-subscription, a late neighbour at the end; (c) at every exact quiescent point. Non-trivial: (a) exactly one open observed; (a2) exactly one side opened on the finally established object; (g) at least one release - quiescence - re-subscribe cycle was judged; (e) a stalled stream had a blocked writer and views were judged; (f) an old session was stuck in its stream write when it was replaced; (b,c) history with at least one neighbour, one subscription and one callback; (d) at least one overlap was established and a callback was logged.")
 	r.Assume("exactly one side opens is checked per delivered link value, not one open per link for all time (DESIGN 8)")
 	r.Assume("AddHandler on an already released subscription is not exercised")
 	env, err := getEnv()
@@ -1085,6 +1085,15 @@ func TestC29(t *testing.T) {
 	}
 	parallel(nbp, 16, func(i int) { runC29bp(r, env, pool, bps[i], jr) })
 	lap("e")
+	// (e2) several changes of one channel queued behind a stalled stream write
+	rngQ := r.Rand("c29queue")
+	nq := r.N(48, 700)
+	qs := make([]*c29q, nq)
+	for i := range qs {
+		qs[i] = genC29q(rngQ, i)
+	}
+	parallel(nq, 16, func(i int) { runC29q(r, env, pool, qs[i], jr) })
+	lap("e2")
 	// (f) stream replacement with the old stream stalled
 	rngF := r.Rand("c29rp")
 	nrp := r.N(48, 700)
